@@ -515,4 +515,367 @@ theorem rotN_add {W x r1 r2 : Nat} (hx : x < 2 ^ W) (hr : r1 + r2 ≤ W) :
   rw [s2, s3, e3]; ring
 
 end Shift
+namespace Shift
+theorem M_eq_two_pow (w n : Nat) : M w n = 2 ^ (w * n) := rfl
+theorem B_pow_eq (w k : Nat) : B w ^ k = 2 ^ (w * k) := by unfold B; rw [Nat.pow_mul]
+end Shift
+open Shift
+namespace UI
+
+/-- `rotate_digits_left(k)`, `k ≤ N` -/
+theorem rotateDigitsLeft_spec {w n k : Nat} {a : List Nat} (ha : WF w n a) (hk : k ≤ n) :
+    WF w n (rotateDigitsLeft a k) ∧
+    U w (rotateDigitsLeft a k) = rotN (w * n) (U w a) (w * k) := by
+  unfold rotateDigitsLeft
+  rw [ha.1]
+  have hd := WF_drop (n - k) ha
+  have ht := WF_take (n - k) ha
+  have hsplit := U_take_drop (n - k) ha (by omega)
+  refine ⟨WF_cast (WF_append hd ht) (by omega), ?_⟩
+  rw [U_append, hd.1, show n - (n - k) = k by omega, hsplit]
+  have hlt : U w (a.take (n - k)) < 2 ^ (w * n - w * k) := by
+    have := U_lt_pow ht
+    rwa [Nat.min_eq_left (by omega), B_pow_eq, Nat.mul_sub] at this
+  have e : B w ^ (n - k) = 2 ^ (w * n - w * k) := by rw [B_pow_eq, Nat.mul_sub]
+  rw [e, Nat.add_comm (U w (List.take (n - k) a)), Nat.mul_comm (2 ^ (w * n - w * k)),
+    rotN_split (Nat.mul_le_mul_left w hk) hlt, B_pow_eq]
+  ring
+
+/-- the bit-rotation loop of `unchecked_rotate_left` followed by `out.digits[0] |= carry` -/
+theorem rotateBits_spec {w n bs : Nat} {x : List Nat} (hn : 1 ≤ n) (hx : WF w n x) (hbs : bs ≤ w) :
+    WF w n (orHead (shlCarryLoop w bs x 0).2 (shlCarryLoop w bs x 0).1) ∧
+    U w (orHead (shlCarryLoop w bs x 0).2 (shlCarryLoop w bs x 0).1)
+      = rotN (w * n) (U w x) bs := by
+  obtain ⟨h1, h2, h3⟩ := shlCarryLoop_spec hbs n x 0 hx (two_pow_pos bs)
+  have hr := U_lt_pow h1
+  have hW : 2 ^ (w * n) = 2 ^ (w * n - bs) * 2 ^ bs := by
+    rw [← Nat.pow_add]; congr 1
+    have : w * 1 ≤ w * n := Nat.mul_le_mul_left _ hn
+    omega
+  rw [B_pow_eq] at h3 hr
+  rw [Nat.add_zero] at h3
+  -- value of the loop output and of the carry
+  have hmod : U w (shlCarryLoop w bs x 0).1 = (U w x * 2 ^ bs) % 2 ^ (w * n) := by
+    rw [← h3, Nat.add_mul_mod_self_left, Nat.mod_eq_of_lt hr]
+  have hdiv : (shlCarryLoop w bs x 0).2 = U w x / 2 ^ (w * n - bs) := by
+    have h4 : U w x * 2 ^ bs / (2 ^ (w * n - bs) * 2 ^ bs) = U w x / 2 ^ (w * n - bs) :=
+      Nat.mul_div_mul_right _ _ (two_pow_pos bs)
+    rw [← h4, ← hW, ← h3, Nat.add_mul_div_left _ _ (two_pow_pos _), Nat.div_eq_of_lt hr,
+      Nat.zero_add]
+  unfold rotN
+  rw [← hmod, ← hdiv]
+  match x, n, hx, hn, h1, h2 with
+  | d :: t, n + 1, hx, _, h1, h2 =>
+    have hloop : shlCarryLoop w bs (d :: t) 0
+        = (dshl w d bs :: (shlCarryLoop w bs t (dshr d (w - bs))).1,
+           (shlCarryLoop w bs t (dshr d (w - bs))).2) := by
+      simp [shlCarryLoop]
+    rw [hloop] at h1 h2 ⊢
+    simp only [orHead] at h1 h2 ⊢
+    rw [WF_cons] at h1
+    obtain ⟨e1, e2⟩ := dshl_lor (w := w) (d := d) hbs h2
+    rw [e1]
+    refine ⟨WF_cons.mpr ⟨e2, h1.2⟩, ?_⟩
+    simp only [U_cons]; omega
+  | [], _, hx, hn, _, _ => exact absurd hx.1 (by simp; omega)
+end UI
+namespace Shift
+end Shift
+open Shift
+namespace UI
+
+/-- `unchecked_rotate_left(s)` for `s ≤ BITS` is the cyclic rotation by `s` -/
+theorem uncheckedRotateLeft_spec {w n s : Nat} {a : List Nat} (hw : 0 < w) (hn : 1 ≤ n)
+    (ha : WF w n a) (hs : s ≤ w * n) :
+    WF w n (uncheckedRotateLeft w a s) ∧
+    U w (uncheckedRotateLeft w a s) = rotN (w * n) (U w a) s := by
+  have hsplit : w * digitShift w s + bitShift w s = s := Nat.div_add_mod s w
+  have hbs := bitShift_lt s hw
+  have hds : digitShift w s ≤ n := by
+    unfold digitShift
+    rcases Nat.lt_or_ge (s / w) (n + 1) with h | h
+    · omega
+    · exfalso
+      have h1 : w * (n + 1) ≤ w * (s / w) := Nat.mul_le_mul_left _ h
+      have h2 := Nat.div_add_mod s w
+      rw [Nat.mul_add] at h1; omega
+  unfold uncheckedRotateLeft
+  generalize digitShift w s = ds at *
+  generalize bitShift w s = bs at *
+  obtain ⟨h1, h2⟩ := rotateDigitsLeft_spec ha hds
+  simp only
+  split
+  · obtain ⟨h3, h4⟩ := rotateBits_spec (bs := bs) hn h1 (by omega)
+    refine ⟨h3, ?_⟩
+    rw [h4, h2, rotN_add (by rw [← M_eq_two_pow]; exact U_lt ha) (by omega), hsplit]
+  · rename_i hb
+    have hb0 : bs = 0 := by simpa using hb
+    subst hb0
+    refine ⟨h1, ?_⟩
+    rw [h2]; congr 1
+end UI
+namespace Shift
+theorem bits_pos {w n : Nat} (hw : 1 ≤ w) (hn : 1 ≤ n) : 0 < w * n := Nat.mul_pos hw hn
+
+theorem U_zero (w n : Nat) : U w (zero n) = 0 := U_replicate_zero w n
+theorem WF_zero (w n : Nat) : WF w n (zero n) := WF_replicate n (B_pos w)
+theorem WF_allOnes {w : Nat} (n : Nat) : WF w n (allOnes w n) :=
+  WF_replicate n (by have := B_pos w; omega)
+theorem U_allOnes (w n : Nat) : U w (allOnes w n) + 1 = M w n := by
+  rw [M_eq_pow]; exact U_replicate_max w n
+theorem S_zero (w n : Nat) : S w (zero n) = 0 := by
+  rw [S_def, U_zero]; unfold toInt; have := M_pos w (zero n).length; simp [this]
+theorem S_allOnes {w n : Nat} (hw : 1 ≤ w) (hn : 1 ≤ n) : S w (allOnes w n) = -1 := by
+  have h1 := U_allOnes w n
+  have h2 := M_even hw hn
+  rw [S_def, (WF_allOnes n).1, toInt_of_ge (by omega)]
+  omega
+
+/-- the amount used by wrapping / overflowing shifts -/
+def effAmount (bits s : Nat) : Nat := if s < bits then s else maskBits bits s
+
+theorem effAmount_lt {bits : Nat} (s : Nat) (h : 0 < bits) : effAmount bits s < bits := by
+  unfold effAmount; split
+  · assumption
+  · exact maskBits_lt s h
+
+theorem effAmount_pow2 {bits k : Nat} (s : Nat) (h : bits = 2 ^ k) : effAmount bits s = s % bits := by
+  unfold effAmount; split
+  · rw [Nat.mod_eq_of_lt ‹_›]
+  · exact maskBits_pow2 s h
+end Shift
+open Shift
+
+namespace UI
+theorem overflowingShl_eq (w : Nat) (a : List Nat) (s : Nat) :
+    overflowingShl w a s
+      = (uncheckedShlInternal w a (effAmount (w * a.length) s), decide (w * a.length ≤ s)) := by
+  unfold overflowingShl effAmount
+  by_cases h : s < w * a.length
+  · have h' : ¬ s ≥ w * a.length := by omega
+    have h'' : ¬ w * a.length ≤ s := by omega
+    simp [h, h'']
+  · have h' : s ≥ w * a.length := by omega
+    simp [h, h']
+
+theorem overflowingShr_eq (w : Nat) (a : List Nat) (s : Nat) :
+    overflowingShr w a s
+      = (uncheckedShrInternal w a (effAmount (w * a.length) s), decide (w * a.length ≤ s)) := by
+  unfold overflowingShr effAmount
+  by_cases h : s < w * a.length
+  · have h'' : ¬ w * a.length ≤ s := by omega
+    simp [h, h'']
+  · have h' : s ≥ w * a.length := by omega
+    simp [h, h']
+end UI
+
+namespace II
+/-- the value `BInt` right shifts compute for an in-range amount -/
+theorem overflowingShr_eq (w : Nat) (a : List Nat) (s : Nat) :
+    overflowingShr w a s
+      = (UI.uncheckedShrPadInternal w (isNegative w a) a (effAmount (w * a.length) s),
+         decide (w * a.length ≤ s)) := by
+  unfold overflowingShr effAmount
+  by_cases h : s < w * a.length
+  · have h'' : ¬ w * a.length ≤ s := by omega
+    cases isNegative w a <;> simp [h, h'']
+  · have h' : s ≥ w * a.length := by omega
+    cases isNegative w a <;> simp [h, h']
+
+theorem overflowingShl_eq (w : Nat) (a : List Nat) (s : Nat) :
+    overflowingShl w a s
+      = (UI.uncheckedShlInternal w a (effAmount (w * a.length) s), decide (w * a.length ≤ s)) := by
+  unfold overflowingShl; rw [UI.overflowingShl_eq]
+
+theorem unboundedShr_eq (w : Nat) (a : List Nat) (s : Nat) :
+    unboundedShr w a s = if s < w * a.length then UI.uncheckedShrPadInternal w (isNegative w a) a s
+      else if isNegative w a then allOnes w a.length else zero a.length := by
+  unfold unboundedShr
+  by_cases h : s < w * a.length
+  · have h' : ¬ s ≥ w * a.length := by omega
+    cases isNegative w a <;> simp [h, h']
+  · have h' : s ≥ w * a.length := by omega
+    simp [h, h']
+end II
+namespace Shift
+/-- two rotations whose amounts add up to `BITS` cancel -/
+theorem rotate_cancel {w n r1 r2 : Nat} {a : List Nat} (hw : 0 < w) (hn : 1 ≤ n) (ha : WF w n a)
+    (hr : r1 + r2 = w * n) :
+    UI.uncheckedRotateLeft w (UI.uncheckedRotateLeft w a r1) r2 = a := by
+  obtain ⟨h1, h2⟩ := UI.uncheckedRotateLeft_spec (s := r1) hw hn ha (by omega)
+  obtain ⟨h3, h4⟩ := UI.uncheckedRotateLeft_spec (s := r2) hw hn h1 (by omega)
+  apply U_injective h3 ha
+  rw [h4, h2, rotN_add (by rw [← M_eq_two_pow]; exact U_lt ha) (by omega), hr, rotN_full]
+
+theorem rotN_left (W x r : Nat) : rotN W x r = (x * 2 ^ r) % 2 ^ W + x / 2 ^ (W - r) := rfl
+theorem rotN_right {W r : Nat} (x : Nat) (hr : r ≤ W) :
+    rotN W x (W - r) = x / 2 ^ r + (x * 2 ^ (W - r)) % 2 ^ W := by
+  unfold rotN; rw [show W - (W - r) = r by omega, Nat.add_comm]
+
+/-- pattern of a product with a signed factor: only the residue of the factor matters -/
+theorem wrapU_S_mul {w n : Nat} {a : List Nat} (ha : WF w n a) (t : Nat) :
+    wrapU (M w n) (S w a * (t : Int)) = (U w a * t) % M w n := by
+  rw [← wrapU_natCast]
+  apply wrapU_congr
+  push_cast
+  rw [S_def, ha.1]; unfold toInt; split
+  · rfl
+  · have e : ((U w a : Int) - (M w n : Int)) * (t : Int) = (U w a : Int) * t + (M w n : Int) * (-(t : Int)) := by
+      ring
+    rw [e, Int.add_mul_emod_self_left]
+end Shift
+namespace Shift
+theorem effAmount_of_lt {bits s : Nat} (h : s < bits) : effAmount bits s = s := by
+  unfold effAmount; simp [h]
+end Shift
+open Shift
+
+/-! ### public API in range: everything reduces to the `unchecked_*_internal` functions -/
+namespace UI
+/-- `x >> s` for `s < BITS` is `floor(x / 2^s)` -/
+theorem uncheckedShrInternal_spec {w n s : Nat} {a : List Nat} (hw : 0 < w) (ha : WF w n a)
+    (hs : s < w * n) :
+    WF w n (uncheckedShrInternal w a s) ∧ U w (uncheckedShrInternal w a s) = U w a / 2 ^ s := by
+  have := uncheckedShrPadInternal_spec false hw ha hs
+  simpa [uncheckedShrInternal] using this
+
+theorem wrappingShl_of_lt {w s : Nat} {a : List Nat} (hs : s < w * a.length) :
+    wrappingShl w a s = uncheckedShlInternal w a s := by
+  unfold wrappingShl; rw [overflowingShl_eq, effAmount_of_lt hs]
+theorem wrappingShr_of_lt {w s : Nat} {a : List Nat} (hs : s < w * a.length) :
+    wrappingShr w a s = uncheckedShrInternal w a s := by
+  unfold wrappingShr; rw [overflowingShr_eq, effAmount_of_lt hs]
+theorem checkedShl_of_lt {w s : Nat} {a : List Nat} (hs : s < w * a.length) :
+    checkedShl w a s = some (uncheckedShlInternal w a s) := by
+  unfold checkedShl; rw [if_neg (by omega)]
+theorem checkedShr_of_lt {w s : Nat} {a : List Nat} (hs : s < w * a.length) :
+    checkedShr w a s = some (uncheckedShrInternal w a s) := by
+  unfold checkedShr; rw [if_neg (by omega)]
+theorem checkedShl_of_ge {w s : Nat} {a : List Nat} (hs : w * a.length ≤ s) :
+    checkedShl w a s = none := by
+  unfold checkedShl; rw [if_pos (by omega)]
+theorem checkedShr_of_ge {w s : Nat} {a : List Nat} (hs : w * a.length ≤ s) :
+    checkedShr w a s = none := by
+  unfold checkedShr; rw [if_pos (by omega)]
+theorem strictShl_of_lt {w s : Nat} {a : List Nat} (hs : s < w * a.length) :
+    strictShl w a s = .ok (uncheckedShlInternal w a s) := by
+  unfold strictShl; rw [checkedShl_of_lt hs]; rfl
+theorem strictShr_of_lt {w s : Nat} {a : List Nat} (hs : s < w * a.length) :
+    strictShr w a s = .ok (uncheckedShrInternal w a s) := by
+  unfold strictShr; rw [checkedShr_of_lt hs]; rfl
+theorem strictShl_of_ge {w s : Nat} {a : List Nat} (hs : w * a.length ≤ s) :
+    strictShl w a s = .panic := by
+  unfold strictShl; rw [checkedShl_of_ge hs]; rfl
+theorem strictShr_of_ge {w s : Nat} {a : List Nat} (hs : w * a.length ≤ s) :
+    strictShr w a s = .panic := by
+  unfold strictShr; rw [checkedShr_of_ge hs]; rfl
+/-- `self << s` / `self.shl(s)` in range: same value in debug and release builds -/
+theorem shl_of_lt {w s : Nat} {a : List Nat} (dbg : Bool) (hs : s < w * a.length) :
+    shl dbg w a s = .ok (uncheckedShlInternal w a s) := by
+  unfold shl; cases dbg <;> simp [strictShl_of_lt hs, wrappingShl_of_lt hs]
+theorem shr_of_lt {w s : Nat} {a : List Nat} (dbg : Bool) (hs : s < w * a.length) :
+    shr dbg w a s = .ok (uncheckedShrInternal w a s) := by
+  unfold shr; cases dbg <;> simp [strictShr_of_lt hs, wrappingShr_of_lt hs]
+theorem unboundedShl_of_lt {w s : Nat} {a : List Nat} (hs : s < w * a.length) :
+    unboundedShl w a s = uncheckedShlInternal w a s := by
+  unfold unboundedShl; rw [if_neg (by omega)]
+theorem unboundedShr_of_lt {w s : Nat} {a : List Nat} (hs : s < w * a.length) :
+    unboundedShr w a s = uncheckedShrInternal w a s := by
+  unfold unboundedShr; rw [if_neg (by omega)]; rfl
+end UI
+
+namespace II
+/-- the `BInt` right shift value for an in-range amount -/
+def shrVal (w : Nat) (a : List Nat) (s : Nat) : List Nat :=
+  UI.uncheckedShrPadInternal w (isNegative w a) a s
+
+/-- `x >> s` for `s < BITS` on `BInt`: floor division of the signed value (sign-propagating) -/
+theorem shrVal_spec {w n s : Nat} {a : List Nat} (hw : 1 ≤ w) (hn : 1 ≤ n) (ha : WF w n a)
+    (hs : s < w * n) : WF w n (shrVal w a s) ∧ S w (shrVal w a s) = S w a / 2 ^ s :=
+  shrPad_signed hw hn ha hs
+
+theorem wrappingShl_of_lt {w s : Nat} {a : List Nat} (hs : s < w * a.length) :
+    wrappingShl w a s = UI.uncheckedShlInternal w a s := by
+  unfold wrappingShl; rw [overflowingShl_eq, effAmount_of_lt hs]
+theorem wrappingShr_of_lt {w s : Nat} {a : List Nat} (hs : s < w * a.length) :
+    wrappingShr w a s = shrVal w a s := by
+  unfold wrappingShr; rw [overflowingShr_eq, effAmount_of_lt hs]; rfl
+theorem checkedShl_of_lt {w s : Nat} {a : List Nat} (hs : s < w * a.length) :
+    checkedShl w a s = some (UI.uncheckedShlInternal w a s) := by
+  unfold checkedShl tupleToOption; rw [overflowingShl_eq, effAmount_of_lt hs]
+  simp; omega
+theorem checkedShr_of_lt {w s : Nat} {a : List Nat} (hs : s < w * a.length) :
+    checkedShr w a s = some (shrVal w a s) := by
+  unfold checkedShr tupleToOption; rw [overflowingShr_eq, effAmount_of_lt hs]
+  simp [shrVal]; omega
+theorem checkedShl_of_ge {w s : Nat} {a : List Nat} (hs : w * a.length ≤ s) :
+    checkedShl w a s = none := by
+  unfold checkedShl tupleToOption; rw [overflowingShl_eq]; simp [hs]
+theorem checkedShr_of_ge {w s : Nat} {a : List Nat} (hs : w * a.length ≤ s) :
+    checkedShr w a s = none := by
+  unfold checkedShr tupleToOption; rw [overflowingShr_eq]; simp [hs]
+theorem strictShl_of_lt {w s : Nat} {a : List Nat} (hs : s < w * a.length) :
+    strictShl w a s = .ok (UI.uncheckedShlInternal w a s) := by
+  unfold strictShl; rw [checkedShl_of_lt hs]; rfl
+theorem strictShr_of_lt {w s : Nat} {a : List Nat} (hs : s < w * a.length) :
+    strictShr w a s = .ok (shrVal w a s) := by
+  unfold strictShr; rw [checkedShr_of_lt hs]; rfl
+theorem strictShl_of_ge {w s : Nat} {a : List Nat} (hs : w * a.length ≤ s) :
+    strictShl w a s = .panic := by
+  unfold strictShl; rw [checkedShl_of_ge hs]; rfl
+theorem strictShr_of_ge {w s : Nat} {a : List Nat} (hs : w * a.length ≤ s) :
+    strictShr w a s = .panic := by
+  unfold strictShr; rw [checkedShr_of_ge hs]; rfl
+theorem shl_of_lt {w s : Nat} {a : List Nat} (dbg : Bool) (hs : s < w * a.length) :
+    shl dbg w a s = .ok (UI.uncheckedShlInternal w a s) := by
+  unfold shl; cases dbg <;> simp [strictShl_of_lt hs, wrappingShl_of_lt hs]
+theorem shr_of_lt {w s : Nat} {a : List Nat} (dbg : Bool) (hs : s < w * a.length) :
+    shr dbg w a s = .ok (shrVal w a s) := by
+  unfold shr; cases dbg <;> simp [strictShr_of_lt hs, wrappingShr_of_lt hs]
+theorem unboundedShr_of_lt {w s : Nat} {a : List Nat} (hs : s < w * a.length) :
+    unboundedShr w a s = shrVal w a s := by
+  rw [unboundedShr_eq, if_pos hs]; rfl
+theorem unboundedShl_of_lt {w s : Nat} {a : List Nat} (hs : s < w * a.length) :
+    unboundedShl w a s = UI.uncheckedShlInternal w a s := UI.unboundedShl_of_lt hs
+end II
+namespace Shift
+end Shift
+open Shift
+namespace UI
+theorem rotateLeft_spec {w n : Nat} {a : List Nat} (hw : 0 < w) (hn : 1 ≤ n) (ha : WF w n a)
+    (k : Nat) :
+    WF w n (rotateLeft w a k) ∧
+    U w (rotateLeft w a k)
+      = (U w a * 2 ^ (k % (w * n))) % M w n + U w a / 2 ^ (w * n - k % (w * n)) := by
+  have hW := bits_pos hw hn
+  unfold rotateLeft; rw [ha.1]
+  exact uncheckedRotateLeft_spec hw hn ha (Nat.le_of_lt (Nat.mod_lt k hW))
+
+theorem rotateRight_spec {w n : Nat} {a : List Nat} (hw : 0 < w) (hn : 1 ≤ n) (ha : WF w n a)
+    (k : Nat) :
+    WF w n (rotateRight w a k) ∧
+    U w (rotateRight w a k)
+      = U w a / 2 ^ (k % (w * n)) + (U w a * 2 ^ (w * n - k % (w * n))) % M w n := by
+  have hW := bits_pos hw hn
+  have hk := Nat.le_of_lt (Nat.mod_lt k hW)
+  unfold rotateRight; rw [ha.1]
+  obtain ⟨h1, h2⟩ := uncheckedRotateLeft_spec (s := w * n - k % (w * n)) hw hn ha (Nat.sub_le _ _)
+  exact ⟨h1, by rw [h2, rotN_right _ hk]; rfl⟩
+
+theorem rotateRight_rotateLeft {w n : Nat} {a : List Nat} (hw : 0 < w) (hn : 1 ≤ n)
+    (ha : WF w n a) (k : Nat) : rotateRight w (rotateLeft w a k) k = a := by
+  have hW := bits_pos hw hn
+  have hk := Nat.le_of_lt (Nat.mod_lt k hW)
+  have hl := (rotateLeft_spec hw hn ha k).1.1
+  unfold rotateRight; rw [hl]; unfold rotateLeft; rw [ha.1]
+  exact rotate_cancel hw hn ha (by omega)
+
+theorem rotateLeft_rotateRight {w n : Nat} {a : List Nat} (hw : 0 < w) (hn : 1 ≤ n)
+    (ha : WF w n a) (k : Nat) : rotateLeft w (rotateRight w a k) k = a := by
+  have hW := bits_pos hw hn
+  have hk := Nat.le_of_lt (Nat.mod_lt k hW)
+  have hl := (rotateRight_spec hw hn ha k).1.1
+  unfold rotateLeft; rw [hl]; unfold rotateRight; rw [ha.1]
+  exact rotate_cancel hw hn ha (by omega)
+end UI
 end Bnum
